@@ -65,14 +65,92 @@ class Connection(object):
 
     @model
     def shared_ciphers(I, args, kw):
-        return Opaque('list', 'shared_ciphers')
+        k = I.path.choose(3, "ciphers")
+        if k == 0:
+            return None
+        return [] if k == 1 else [Opaque('object', 'cipher-tuple')]
 
     @model
     def cipher(I, args, kw):
         return Opaque('object', 'cipher')
 
 
-MODELS = {"Connection": Connection}
+    @model
+    def do_handshake(I, args, kw):
+        if I.path.choose(2, "handshake") == 1:
+            I.path.event('raise', 'HandshakeFailure')
+            e = ExcVal(Exception, (Opaque('str', 'handshake failure'),))
+            e.fields['__unknown_subclass__'] = True
+            raise _pyvc().Raised(e)
+        return None
+
+    @model
+    def shutdown(I, args, kw):
+        return None
+
+    @model
+    def close(I, args, kw):
+        return None
+
+
+class Engine(object):
+    """The engine as seen by the session (assumed here; proved in the engine contracts):
+    process_request(request, identity) returns (response, max size | None, protocol version)
+    or raises; build_error_response(version, reason, message) returns a response, never raises."""
+    default_protocol_version = None
+
+    @model
+    def process_request(I, args, kw):
+        self, request, identity = args[0], args[1], args[2]
+        P = I.path
+        P.event('engine.process_request', id(request), id(identity))
+        k = P.choose(3, "engine")
+        if k == 1:
+            import kmip.core.exceptions as E
+            e = ExcVal(E.KmipError, (Opaque('str', 'kmip error text'),))
+            e.fields['reason'] = Opaque('object', 'reason')
+            e.fields['__unknown_subclass__'] = True
+            raise _pyvc().Raised(e)
+        if k == 2:
+            e = ExcVal(Exception, (Opaque('str', 'unexpected'),))
+            e.fields['__unknown_subclass__'] = True
+            raise _pyvc().Raised(e)
+        resp = Obj(Response, {'kind': 'engine-response'}, 'response')
+        m = fresh("max_response_size")
+        P.assume(m >= 0)
+        return (resp, SOpt(fresh("no_max", z3.BoolSort()), SInt(m)), Opaque('object', 'protocol_version'))
+
+    @model
+    def build_error_response(I, args, kw):
+        self, version, reason, message = args[0], args[1], args[2], args[3]
+        I.path.event('engine.error_response', reason, id(version))
+        return Obj(Response, {'kind': 'error', 'reason': reason, 'message': message}, 'error-response')
+
+
+class Response(object):
+    """ResponseMessage built by the engine: write() appends its encoding (any bytes) to the
+    stream and is assumed not to raise (C01/C02 cover the codec)."""
+
+    @model
+    def write(I, args, kw):
+        self, stream = args[0], args[1]
+        P = I.path
+        P.session.assumptions.add("ResponseMessage.write does not raise for responses built by the engine")
+        t = fresh("encoding", IntSeq)
+        P.assume(z3.Length(t) >= 8)
+        if self.fields.get('kind') == 'error':
+            P.session.assumptions.add("an error response built by build_error_response encodes to at "
+                                      "most 4096 bytes (one batch item with a fixed message)")
+            P.assume(z3.Length(t) <= 4096)
+        cur = stream.fields.get('buffer', b'')
+        from .sym import seq_concat
+        stream.fields['buffer'] = seq_concat(cur, SSeq('bytes', [('s', t)], frozenset(['wire'])))
+        P.event('response.write', self.fields.get('kind'), self.fields.get('reason'), t.get_id())
+        self.fields['encoded_as'] = t.get_id()
+        return None
+
+
+MODELS = {"Connection": Connection, "Engine": Engine}
 
 
 def make(name, I, label):
@@ -82,5 +160,9 @@ def make(name, I, label):
         o.fields['remaining'] = SSeq('bytes', [('s', t)])
         o.fields['sent'] = []
         o.meta['initial_fields'] = dict(o.fields)
+        return o
+    if name == "Engine":
+        from kmip.core.messages import contents
+        o = Obj(Engine, {'default_protocol_version': contents.ProtocolVersion(2, 0)}, label)
         return o
     raise OutOfFragment("unknown environment model %s" % name)
